@@ -15,12 +15,13 @@
 (***************************************************************************)
 EXTENDS Naturals, Sequences, FiniteSets, TLC
 
-CONSTANTS Modes, MediaSets, Bundles, Muxes, Ices, Latchings, Compats, Offerers, Scheds,
+CONSTANTS Modes, MediaSets, Bundles, Muxes, Ices, Latchings, Compats, Offerers, Scheds, Renegs,
           Deviations
 
 DeviationNames == {"SdesBeforeLocalAnswer",   \* Srtp answerer installs SDES keys before its own answer exists
                    "EqualRoles",              \* both sides take the same DTLS role
-                   "SctpNeedsStoredRemote"}   \* SCTP is only created if the remote description is already stored
+                   "SctpNeedsStoredRemote",   \* SCTP is only created if the remote description is already stored
+                   "RenegRestartsTransport"}  \* a second offer/answer round tears the transports down
 
 Sides == {"A", "B"}
 Other(s) == IF s = "A" THEN "B" ELSE "A"
@@ -28,7 +29,9 @@ Other(s) == IF s = "A" THEN "B" ELSE "A"
 \* sched is not a configuration but a schedule of the application: "slowSetRemote" = the task that runs the offerer's
 \* set_remote_description(answer) is slow after it has started ICE (the description is stored late)
 Lattice == [mode : Modes, media : MediaSets, bundle : Bundles, mux : Muxes, ice : Ices,
-            latching : Latchings, compat : Compats, offerer : Offerers, sched : Scheds]
+            latching : Latchings, compat : Compats, offerer : Offerers, sched : Scheds, reneg : Renegs]
+
+\* reneg: who starts a second offer/answer round once the connection is up and has delivered ("none": nobody)
 
 \* only what the configuration API documents as meaningful together
 Compatible(c) ==
@@ -51,9 +54,10 @@ VARIABLES cfg,
           sctp,    \* [Sides -> none | connecting | established]
           chan,    \* [Sides -> none | connecting | open]
           peer,    \* [Sides -> New | Connected | Failed]
-          dcGot, rtpGot   \* [Sides -> BOOLEAN] a data-channel message / an RTP packet from the other side arrived
+          dcGot, rtpGot,  \* [Sides -> BOOLEAN] a data-channel message / an RTP packet from the other side arrived
+          round           \* 1: first negotiation; 2..4: second offer/answer round in progress; 5: complete
 
-vars == <<cfg, sig, ldesc, rdesc, ice, role, dtls, keys, sctp, chan, peer, dcGot, rtpGot>>
+vars == <<cfg, sig, ldesc, rdesc, ice, role, dtls, keys, sctp, chan, peer, dcGot, rtpGot, round>>
 
 HasDc == "dc" \in cfg.media
 HasMedia == cfg.media \cap {"audio", "video"} # {}
@@ -73,48 +77,49 @@ Init ==
     /\ chan = [s \in Sides |-> "none"]
     /\ peer = [s \in Sides |-> "New"]
     /\ dcGot = [s \in Sides |-> FALSE] /\ rtpGot = [s \in Sides |-> FALSE]
+    /\ round = 1
 
 -----------------------------------------------------------------------------
 (* signaling: offer / answer in JSEP order *)
 
 SetLocalOffer ==
-    /\ sig[Off] = "Stable" /\ ~ldesc[Off]
+    /\ round = 1 /\ sig[Off] = "Stable" /\ ~ldesc[Off]
     /\ sig' = [sig EXCEPT ![Off] = "HaveLocalOffer"]
     /\ ldesc' = [ldesc EXCEPT ![Off] = TRUE]
     /\ chan' = [chan EXCEPT ![Off] = IF HasDc THEN "connecting" ELSE @]
-    /\ UNCHANGED <<cfg, rdesc, ice, role, dtls, keys, sctp, peer, dcGot, rtpGot>>
+    /\ UNCHANGED <<cfg, rdesc, ice, role, dtls, keys, sctp, peer, dcGot, rtpGot, round>>
 
 \* the answerer learns its DTLS role from the offer (actpass -> it becomes the client... the code
 \* maps a remote actpass to "server" for itself and the answer says passive/active accordingly);
 \* in the direct modes the transport is started as soon as the remote address is known
 SetRemoteOffer ==
-    /\ ldesc[Off] /\ sig[Ans] = "Stable" /\ ~rdesc[Ans]
+    /\ round = 1 /\ ldesc[Off] /\ sig[Ans] = "Stable" /\ ~rdesc[Ans]
     /\ sig' = [sig EXCEPT ![Ans] = "HaveRemoteOffer"]
     /\ rdesc' = [rdesc EXCEPT ![Ans] = TRUE]
     /\ role' = [role EXCEPT ![Ans] = IF IsWeb THEN "server" ELSE @]
     /\ ice' = [ice EXCEPT ![Ans] = IF IsWeb THEN "Checking" ELSE "Connected"]
-    /\ UNCHANGED <<cfg, ldesc, dtls, keys, sctp, chan, peer, dcGot, rtpGot>>
+    /\ UNCHANGED <<cfg, ldesc, dtls, keys, sctp, chan, peer, dcGot, rtpGot, round>>
 
 SetLocalAnswer ==
-    /\ sig[Ans] = "HaveRemoteOffer"
+    /\ round = 1 /\ sig[Ans] = "HaveRemoteOffer"
     /\ sig' = [sig EXCEPT ![Ans] = "Stable"]
     /\ ldesc' = [ldesc EXCEPT ![Ans] = TRUE]
-    /\ UNCHANGED <<cfg, rdesc, ice, role, dtls, keys, sctp, chan, peer, dcGot, rtpGot>>
+    /\ UNCHANGED <<cfg, rdesc, ice, role, dtls, keys, sctp, chan, peer, dcGot, rtpGot, round>>
 
 \* set_remote_description(answer): signaling commit, DTLS role and ICE start come first, the description is stored at
 \* the end of the call - with a slow application task the transports can start in between
 SetRemoteAnswer ==
-    /\ ldesc[Ans] /\ sig[Off] = "HaveLocalOffer"
+    /\ round = 1 /\ ldesc[Ans] /\ sig[Off] = "HaveLocalOffer"
     /\ sig' = [sig EXCEPT ![Off] = "Stable"]
     /\ rdesc' = [rdesc EXCEPT ![Off] = (cfg.sched # "slowSetRemote")]
     /\ role' = [role EXCEPT ![Off] = IF IsWeb THEN (IF "EqualRoles" \in Deviations THEN "server" ELSE "client") ELSE @]
     /\ ice' = [ice EXCEPT ![Off] = IF IsWeb THEN "Checking" ELSE "Connected"]
-    /\ UNCHANGED <<cfg, ldesc, dtls, keys, sctp, chan, peer, dcGot, rtpGot>>
+    /\ UNCHANGED <<cfg, ldesc, dtls, keys, sctp, chan, peer, dcGot, rtpGot, round>>
 
 StoreRemoteAnswer ==
     /\ sig[Off] = "Stable" /\ ldesc[Ans] /\ ~rdesc[Off] /\ role[Off] # "none"
     /\ rdesc' = [rdesc EXCEPT ![Off] = TRUE]
-    /\ UNCHANGED <<cfg, sig, ldesc, ice, role, dtls, keys, sctp, chan, peer, dcGot, rtpGot>>
+    /\ UNCHANGED <<cfg, sig, ldesc, ice, role, dtls, keys, sctp, chan, peer, dcGot, rtpGot, round>>
 
 -----------------------------------------------------------------------------
 (* transports *)
@@ -122,7 +127,7 @@ StoreRemoteAnswer ==
 IceConnect(s) ==
     /\ IsWeb /\ ice[s] = "Checking" /\ ice[Other(s)] \in {"Checking", "Connected"}
     /\ ice' = [ice EXCEPT ![s] = "Connected"]
-    /\ UNCHANGED <<cfg, sig, ldesc, rdesc, role, dtls, keys, sctp, chan, peer, dcGot, rtpGot>>
+    /\ UNCHANGED <<cfg, sig, ldesc, rdesc, role, dtls, keys, sctp, chan, peer, dcGot, rtpGot, round>>
 
 StartDtls(s) ==
     /\ IsWeb /\ ice[s] = "Connected" /\ role[s] # "none" /\ dtls[s] = "none"
@@ -131,7 +136,7 @@ StartDtls(s) ==
     \* remote description, or from the local one while the remote one is not stored yet
     /\ sctp' = [sctp EXCEPT ![s] = IF HasDc /\ (rdesc[s] \/ (ldesc[s] /\ "SctpNeedsStoredRemote" \notin Deviations))
                                    THEN "connecting" ELSE @]
-    /\ UNCHANGED <<cfg, sig, ldesc, rdesc, ice, role, keys, chan, peer, dcGot, rtpGot>>
+    /\ UNCHANGED <<cfg, sig, ldesc, rdesc, ice, role, keys, chan, peer, dcGot, rtpGot, round>>
 
 \* the handshake needs one client and one server
 DtlsConnected ==
@@ -140,7 +145,7 @@ DtlsConnected ==
     /\ dtls' = [s \in Sides |-> "connected"]
     \* exporter: client write key = 1, server write key = 2
     /\ keys' = [s \in Sides |-> IF role[s] = "client" THEN [tx |-> 1, rx |-> 2] ELSE [tx |-> 2, rx |-> 1]]
-    /\ UNCHANGED <<cfg, sig, ldesc, rdesc, ice, role, sctp, chan, peer, dcGot, rtpGot>>
+    /\ UNCHANGED <<cfg, sig, ldesc, rdesc, ice, role, sctp, chan, peer, dcGot, rtpGot, round>>
 
 \* direct modes: the transport starts when ICE ("direct") is connected; Srtp needs the a=crypto of
 \* both descriptions of THIS side (key of A's description = 3, of B's = 4)
@@ -153,38 +158,81 @@ StartDirect(s) ==
             ELSE /\ "SdesBeforeLocalAnswer" \in Deviations
                  /\ peer' = [peer EXCEPT ![s] = "Failed"] /\ UNCHANGED keys
        ELSE peer' = [peer EXCEPT ![s] = "Connected"] /\ UNCHANGED keys
-    /\ UNCHANGED <<cfg, sig, ldesc, rdesc, ice, role, dtls, sctp, chan, dcGot, rtpGot>>
+    /\ UNCHANGED <<cfg, sig, ldesc, rdesc, ice, role, dtls, sctp, chan, dcGot, rtpGot, round>>
 
 WebConnected(s) ==
     /\ IsWeb /\ dtls[s] = "connected" /\ peer[s] = "New"
     /\ peer' = [peer EXCEPT ![s] = "Connected"]
-    /\ UNCHANGED <<cfg, sig, ldesc, rdesc, ice, role, dtls, keys, sctp, chan, dcGot, rtpGot>>
+    /\ UNCHANGED <<cfg, sig, ldesc, rdesc, ice, role, dtls, keys, sctp, chan, dcGot, rtpGot, round>>
 
 SctpUp ==
     /\ HasDc /\ \A s \in Sides : sctp[s] = "connecting" /\ dtls[s] = "connected"
     /\ sctp' = [s \in Sides |-> "established"]
-    /\ UNCHANGED <<cfg, sig, ldesc, rdesc, ice, role, dtls, keys, chan, peer, dcGot, rtpGot>>
+    /\ UNCHANGED <<cfg, sig, ldesc, rdesc, ice, role, dtls, keys, chan, peer, dcGot, rtpGot, round>>
 
 ChanOpen ==
     /\ HasDc /\ \A s \in Sides : sctp[s] = "established"
     /\ chan[Off] = "connecting"
     /\ chan' = [s \in Sides |-> "open"]
-    /\ UNCHANGED <<cfg, sig, ldesc, rdesc, ice, role, dtls, keys, sctp, peer, dcGot, rtpGot>>
+    /\ UNCHANGED <<cfg, sig, ldesc, rdesc, ice, role, dtls, keys, sctp, peer, dcGot, rtpGot, round>>
 
 DataDelivered(s) ==
+    /\ round \in {1, 5}
     /\ HasDc /\ chan["A"] = "open" /\ chan["B"] = "open" /\ ~dcGot[s]
     /\ dcGot' = [dcGot EXCEPT ![s] = TRUE]
-    /\ UNCHANGED <<cfg, sig, ldesc, rdesc, ice, role, dtls, keys, sctp, chan, peer, rtpGot>>
+    /\ UNCHANGED <<cfg, sig, ldesc, rdesc, ice, role, dtls, keys, sctp, chan, peer, rtpGot, round>>
 
 \* an RTP packet from the other side is accepted only under matching keys (or without keys in Rtp mode)
 RtpDelivered(s) ==
+    /\ round \in {1, 5}
     /\ HasMedia /\ peer["A"] = "Connected" /\ peer["B"] = "Connected" /\ ~rtpGot[s]
     /\ keys[Other(s)].tx = keys[s].rx
     /\ (cfg.mode # "Rtp") => keys[s].rx # 0
     /\ rtpGot' = [rtpGot EXCEPT ![s] = TRUE]
-    /\ UNCHANGED <<cfg, sig, ldesc, rdesc, ice, role, dtls, keys, sctp, chan, peer, dcGot>>
+    /\ UNCHANGED <<cfg, sig, ldesc, rdesc, ice, role, dtls, keys, sctp, chan, peer, dcGot, round>>
+
+-----------------------------------------------------------------------------
+(* renegotiation: a second offer/answer round on the established connection, started by either side; transports,
+   roles and keys stay, delivery works again afterwards *)
+
+Delivered1 == /\ \A s \in Sides : peer[s] = "Connected"
+              /\ HasDc => \A s \in Sides : dcGot[s]
+              /\ HasMedia => \A s \in Sides : rtpGot[s]
+
+RSide == IF cfg.reneg = "offerer" THEN Off ELSE Ans
+OSide == Other(RSide)
+
+RenegLocalOffer ==
+    /\ cfg.reneg # "none" /\ round = 1 /\ \A s \in Sides : peer[s] = "Connected"
+    /\ sig[RSide] = "Stable" /\ sig[OSide] = "Stable"
+    /\ sig' = [sig EXCEPT ![RSide] = "HaveLocalOffer"]
+    /\ round' = 2
+    /\ dcGot' = [s \in Sides |-> FALSE] /\ rtpGot' = [s \in Sides |-> FALSE]
+    /\ UNCHANGED <<cfg, ldesc, rdesc, ice, role, dtls, keys, sctp, chan, peer>>
+
+RenegRemoteOffer ==
+    /\ round = 2 /\ sig[OSide] = "Stable"
+    /\ sig' = [sig EXCEPT ![OSide] = "HaveRemoteOffer"]
+    /\ round' = 3
+    /\ IF "RenegRestartsTransport" \in Deviations
+       THEN peer' = [peer EXCEPT ![OSide] = "New"]
+       ELSE UNCHANGED peer
+    /\ UNCHANGED <<cfg, ldesc, rdesc, ice, role, dtls, keys, sctp, chan, dcGot, rtpGot>>
+
+RenegLocalAnswer ==
+    /\ round = 3 /\ sig[OSide] = "HaveRemoteOffer"
+    /\ sig' = [sig EXCEPT ![OSide] = "Stable"]
+    /\ round' = 4
+    /\ UNCHANGED <<cfg, ldesc, rdesc, ice, role, dtls, keys, sctp, chan, peer, dcGot, rtpGot>>
+
+RenegRemoteAnswer ==
+    /\ round = 4 /\ sig[RSide] = "HaveLocalOffer"
+    /\ sig' = [sig EXCEPT ![RSide] = "Stable"]
+    /\ round' = 5
+    /\ UNCHANGED <<cfg, ldesc, rdesc, ice, role, dtls, keys, sctp, chan, peer, dcGot, rtpGot>>
 
 Next ==
+    \/ RenegLocalOffer \/ RenegRemoteOffer \/ RenegLocalAnswer \/ RenegRemoteAnswer
     \/ SetLocalOffer \/ SetRemoteOffer \/ SetLocalAnswer \/ SetRemoteAnswer \/ StoreRemoteAnswer
     \/ \E s \in Sides : IceConnect(s) \/ StartDtls(s) \/ StartDirect(s) \/ WebConnected(s)
                         \/ DataDelivered(s) \/ RtpDelivered(s)
@@ -205,7 +253,11 @@ SameSrtpKeys ==
 
 NeverFailed == \A s \in Sides : peer[s] # "Failed"
 
-Done == /\ \A s \in Sides : peer[s] = "Connected"
+\* a connection that is up stays up through a renegotiation
+StaysConnected == round >= 2 => \A s \in Sides : peer[s] = "Connected"
+
+Done == /\ round = (IF cfg.reneg = "none" THEN 1 ELSE 5)
+        /\ \A s \in Sides : peer[s] = "Connected"
         /\ HasDc => \A s \in Sides : dcGot[s]
         /\ HasMedia => \A s \in Sides : rtpGot[s]
 
